@@ -1,4 +1,5 @@
 import CklVerif.Lemmas.C14EvalPure
+import CklVerif.Lemmas.C17EvalBase
 
 /-! C14 (evaluator part) — `callPure` respects similarity -/
 namespace Ckl.C14E
@@ -8,10 +9,40 @@ open Ckl
 def pureNames : List String :=
   ["add", "sub", "mul", "div", "mod", "equals", "not_equals", "less", "greater", "less_equals", "greater_equals", "compare", "type", "identity", "string", "length", "is_null", "is_not_null", "is_empty", "if_null", "append", "insert_at", "delete_at", "remove", "put", "list", "set", "range", "sum", "zip", "sublist", "substr", "find", "find_last", "contains", "starts_with", "ends_with", "chr", "ord", "println", "print"]
 
-theorem callPure_none {name : String} (h : name ∉ pureNames) (a : List (String × RVal)) (d : Option RVal) (p : Pos) :
-    callPure name a d p = none := by
+/-- on every other name `callPure` hands over to `callDate` (`date`, `int`, `decimal` of a date) -/
+theorem callPure_other {name : String} (h : name ∉ pureNames) (a : List (String × RVal)) (d : Option RVal) (p : Pos) :
+    callPure name a d p = callDate name a p := by
   unfold callPure
   split <;> first | rfl | (exfalso; revert h; decide)
+
+theorem asDateRes_ers {v v' : RVal} (h : ers v = ers v') : asDateRes v = asDateRes v' := by
+  rcases RVal.sim_cases5 h with rfl | ⟨_, _, rfl, rfl, _⟩ | ⟨_, _, rfl, rfl⟩ | ⟨_, _, rfl, rfl⟩ | ⟨_, _, _, _, rfl, rfl, _⟩ <;> rfl
+
+theorem onDate_resp (f : DT → DateRes) {p p' : Pos} {o o' : Option RVal} (h : ers o = ers o') :
+    PureSim (onDate f p o) (onDate f p' o') := by
+  rcases Option.sim_cases h with ⟨rfl, rfl⟩ | ⟨v, v', rfl, rfl, hv⟩
+  · simp only [onDate, PureSim]
+  · rcases RVal.sim_cases5 hv with rfl | ⟨_, _, rfl, rfl, _⟩ | ⟨_, _, rfl, rfl⟩ | ⟨_, _, rfl, rfl⟩ | ⟨_, _, _, _, rfl, rfl, _⟩
+    · cases v <;> simp only [onDate, PureSim]
+      exact dateResM_resp _
+    all_goals simp only [onDate, PureSim]
+
+/-- `date(x)`, `int(date)`, `decimal(date)` respect similarity: they look at no position -/
+theorem callDate_resp (name : String) {args args' : List (String × RVal)} {p p' : Pos}
+    (ha : ers args = ers args') : PureSim (callDate name args p) (callDate name args' p') := by
+  have h1 : ers (dictGet "obj" args) = ers (dictGet "obj" args') := by ers_tac
+  by_cases hd : name = "date"
+  · subst hd
+    rw [callDate_date, callDate_date]
+    rcases Option.sim_cases h1 with ⟨h2, h3⟩ | ⟨v, v', h2, h3, hv⟩
+    · rw [h2, h3]; simp only [Option.map, PureSim]
+    · rw [h2, h3]; simp only [Option.map, PureSim]; rw [asDateRes_ers hv]; exact dateResM_resp _
+  by_cases hi : name = "int"
+  · subst hi; rw [callDate_int, callDate_int]; exact onDate_resp _ h1
+  by_cases hc : name = "decimal"
+  · subst hc; rw [callDate_decimal, callDate_decimal]; exact onDate_resp _ h1
+  rw [callDate_none_of_name _ _ hd hi hc, callDate_none_of_name _ _ hd hi hc]
+  trivial
 
 theorem callPure_resp (name : String) {args args' : List (String × RVal)} {d d' : Option RVal} {p p' : Pos}
     (ha : ers args = ers args') (hd : ers d = ers d') :
@@ -60,7 +91,7 @@ theorem callPure_resp (name : String) {args args' : List (String × RVal)} {d d'
     · exact callPure_ord ha hd
     · exact callPure_println ha hd
     · exact callPure_print ha hd
-  · rw [callPure_none h, callPure_none h]
-    trivial
+  · rw [callPure_other h, callPure_other h]
+    exact callDate_resp name ha
 
 end Ckl.C14E
